@@ -558,6 +558,14 @@ template <class C> static void run_ets_threads(EtsScen& s, Rng& r, Shadow& sh) {
             check_part(s, sh, recs[i], in_wave, "wave");
         }
         quiescent_check(s, *c, sh, w + 1 == s.waves.size());
+        // clear() at the quiescent point (it is not concurrency-safe), then the container starts over: every thread of a later wave, also a
+        // pool thread that had an element before, is new to it - exists=false, one initialiser call, one fresh element each
+        if (w + 1 < s.waves.size() && r.chance(1, 3) && !g_fails.load()) {
+            c->clear();
+            if constexpr (HasIter<C>::value) if (c->size() != 0 || !c->empty()) fail("c19.ets.size-mismatch", "size() = " + std::to_string(c->size()) + " right after clear()");
+            sh.known.clear(); sh.owner_of.clear(); sh.expect.clear(); s.inits.store(0, RLX);
+            result().stat("ets_clear_between_waves"); result().stat("ets_pool_threads_that_had_an_element_before_a_clear", (long long)ws.pool.size());
+        }
         progress();
     }
     s.cur_wave = -1;
